@@ -179,7 +179,7 @@ class Gen:
         r = self.rng
         ctx["budget"][0] -= 1
         d = ctx["depth"]
-        w = {"act": 5, "leaf": 3, "yield": 2}
+        w = {"act": 5, "leaf": 3, "yield": 2, "multi": 1.2}
         if ctx["fi"] + 1 < ctx["nf"]:
             w["fn"] = 2
         dfn = ctx.get("dfn")
@@ -205,6 +205,8 @@ class Gen:
         self.count("stmt:" + k)
         if k == "act":
             return ("A", self.new_act(exprY=ctx["exprY"]))
+        if k == "multi":
+            return self.gen_multi(ctx)
         if k == "leaf":
             return ("C", self.new_leaf())
         if k == "yield":
@@ -313,6 +315,31 @@ class Gen:
             pre = [("I", nc, [("B", None)], None), ("A", self.new_act(dst=cv, x=cv, y=ZERO, k=1, p=0))]
         body = pre + self.stmts(c2, r.randrange(1, 4))
         return ("{", [init, ("L", lab if refs else None, lc, post, body)])
+
+    def gen_multi(self, ctx):
+        """dst = pick(k, e1, …, en): 3-5 arguments, two or more of them yield, traced non-yielding arguments between
+        and after them; callee direct / variadic / method; evaluation order must be left to right"""
+        r = self.rng
+        n = r.randrange(3, 6)
+        kinds = [r.choice(["tr", "yt", "yt", "var"]) for _ in range(n)]
+        while sum(k == "yt" for k in kinds) < 2:
+            kinds[r.randrange(n)] = "yt"
+        if r.random() < 0.6:            # a traced non-yielding argument BETWEEN two yielding ones
+            i = r.randrange(0, n - 2)
+            kinds[i], kinds[i + 1], kinds[i + 2] = "yt", "tr", "yt"
+        args = []
+        for kd in kinds:
+            v = self.anyvar()
+            if kd == "var":
+                args.append(("var", v, None, None))
+            else:
+                a = self.new_act(dst=0, x=v, y=ZERO, k=0, p=2)          # trace act: println("t", id, v)
+                site = self.new_yield() if kd == "yt" and self.nsites < 60 else None
+                args.append(("yt" if site is not None else "tr", v, a, site))
+        fin = self.new_act(dst=self.dstvar(), x=args[0][1], y=args[1][1], k=r.randrange(0, 30), p=1)
+        go = r.choice(["direct", "variadic", "method"])
+        self.count("multi:%s:%d" % (go, sum(a[0] == "yt" for a in args)))
+        return ("MULTI", args, fin, go)
 
     def new_localcall(self, actid):
         """call of a local closure whose body is action `actid` (call through a function-typed variable)"""
@@ -475,6 +502,10 @@ def walk(stmts):
             yield from walk(s[2])
             if s[3] is not None:
                 yield from walk([s[3]])
+        elif k == "MULTI":
+            for a in s[1]:
+                if a[3] is not None:
+                    yield ("C", a[3])
         elif k in ("L", "LC"):
             if s[3] is not None and s[3][0] == "c":
                 yield ("C", s[3][1])
@@ -493,6 +524,7 @@ def call_graph(g, with_yields):
     if with_yields:
         intr.add("runtime.Gosched")
         edges.append(("main.yield", "runtime.Gosched"))
+        edges.append(("main.yt", "main.yield"))
         for n in ("main.leafD", "main.T.M", "main.PT.M", "main.leafG", "main.mkClo$lit", "main.yb", "main.yf", "main.yi"):
             edges.append((n, "main.yield"))
         edges.append(("main.leafDeferDirect", "main.yield"))
@@ -510,6 +542,11 @@ def call_graph(g, with_yields):
         for s in walk(f["body"]):
             if s[0] == "AC" and s[4] is not None:
                 intr.add(me)
+            if s[0] == "MULTI":
+                edges.append((me, "main.tr"))
+                edges.append((me, {"direct": "main.pick", "variadic": "main.pickV", "method": "main.T.Pick"}[s[3]]))
+                if with_yields and any(a[0] == "yt" for a in s[1]):
+                    edges.append((me, "main.yt"))
             if s[0] == "DEFER":
                 cl = g.dops[s[1]]
                 if cl["go"] == "direct":
@@ -574,31 +611,32 @@ def box_items(g, fi):
         if o is not None and o in objs:
             objs[o][2] = True
 
-    def scan(stmts, env):
+    def scan(stmts, env, inloop=False):
         for st in stmts:
             k = st[0]
             if k == "{":
-                scan(st[1], env)
+                scan(st[1], env, inloop)
             elif k == "I":
-                scan(st[2], env)
+                scan(st[2], env, inloop)
                 if st[3] is not None:
-                    scan([st[3]], env)
+                    scan([st[3]], env, inloop)
             elif k == "W":
                 for _, b in st[2]:
-                    scan(b, env)
+                    scan(b, env, inloop)
                 if st[3] is not None:
-                    scan(st[3], env)
+                    scan(st[3], env, inloop)
             elif k == "L":
-                scan(st[4], env)
+                scan(st[4], env, True)
             elif k == "LC":
                 info = st[5]
                 env2 = dict(env)
                 for slot, nm in info["names"].items():
                     key = ("lc", info["capid"], slot)
-                    site = 3 if nm.startswith("w") else 2
+                    # a header variable of a loop nested in another loop's body is a body variable of the outer loop
+                    site = 3 if nm.startswith("w") or inloop else 2
                     objs[key] = [nm, site, False]
                     env2[slot] = key
-                scan(st[4], env2)
+                scan(st[4], env2, True)
             elif k == "CAPDEF":
                 info = st[1]
                 for mode, name, aid in info["defs"]:
@@ -629,7 +667,10 @@ _BOXED = re.compile(r"(?<![\w$.])([A-Za-z_][\w$]*) = \[\1\];")
 def js_boxed(js):
     """names boxed by `x = [x];` in a declaration (counter suffixes `$n` stripped), sorted multiset"""
     body = _COMMENT.sub("", clean_js(js))
-    return sorted(re.sub(r"\$\d+$", "", n) for n in _BOXED.findall(body))
+    # a statement list duplicated by the compiler front end (switch `fallthrough` is resolved by copying the following
+    # clause bodies) repeats the boxing statement of the SAME JS variable at a second program point: count each JS
+    # variable once; distinct Go variables of the same name have distinct JS names (`i4`, `i4$1`)
+    return sorted(re.sub(r"\$\d+$", "", n) for n in set(_BOXED.findall(body)))
 
 
 def lfp(intr, edges):
@@ -728,6 +769,14 @@ def enc_stmt(g, s, blocking_fn):
         return ["S", "A", str(s[5]["init"]), "L", lab(s[1]), lab(s[2])] + post + enc_list(g, s[4], blocking_fn)
     if k == "APRE":
         return ["A", str(s[1])]
+    if k == "MULTI":    # arguments left to right: trace print, then (for a yielding argument) the yield; then the call
+        out = []
+        for kd, v, a, site in s[1]:
+            if a is not None:
+                out += ["S", "A", str(a)]
+            if site is not None:
+                out += ["S", "C", str(site)]
+        return out + ["A", str(s[2])]
     if k == "AC":       # a call through a closure variable is a (non-suspending) blocking call site; pointer access is an action
         return ["C", str(s[4])] if s[4] is not None else ["A", str(s[1])]
     if k == "W":
@@ -788,6 +837,12 @@ func cnd(id int, b bool) bool { println("c", id, b); return b }
 func yb(site int) bool { %(Y)s; return true }
 func yf(site int) bool { %(Y)s; return false }
 func yi(site int, x int) int { %(Y)s; return x }
+
+func tr(id, x int) int { println("t", id, x); return x }
+func yt(site, id, x int) int { println("t", id, x); %(Y)s; return x }
+func pick(k, a, b int, rest ...int) int { return (a + 2*b + k) %% 1009 }
+func pickV(k int, xs ...int) int { return (xs[0] + 2*xs[1] + k) %% 1009 }
+func (t T) Pick(k, a, b int, rest ...int) int { return (a + 2*b + k + t.pad) %% 1009 }
 
 func leafD(site, x, k int) int { %(Y)s; return (x + k) %% 1009 }
 
@@ -1035,6 +1090,19 @@ class Render:
             self.emit(ind, head)
             self.block(s[4], ind + 1)
             self.emit(ind, "}")
+        elif k == "MULTI":
+            es = []
+            for kd, v, a, site in s[1]:
+                if kd == "var":
+                    es.append(self.vn(v))
+                elif kd == "yt" and self.y:
+                    es.append("yt(%d, %d, %s)" % (self.g.calls[site]["callee"], a, self.vn(v)))
+                else:
+                    es.append("tr(%d, %s)" % (a, self.vn(v)))
+            dst, x, y, kk, p, ys = self.g.acts[s[2]]
+            callee = {"direct": "pick", "variadic": "pickV", "method": "tv.Pick"}[s[3]]
+            self.emit(ind, "%s = %s(%d, %s)" % (self.vn(dst), callee, kk, ", ".join(es)))
+            self.emit(ind, 'println("a", %d, %s)' % (s[2], self.vn(dst)))
         elif k == "HOLDDECL":
             self.emit(ind, "var %s func() int" % s[1])
         elif k == "LC":
